@@ -56,7 +56,7 @@ class Ctx:
         self.calls = calls  # number of enclosing <%call> bodies in this file
 
     def key(self):
-        return (self.tagdepth > 0, self.depth0, self.mainfile, self.calls >= 2)
+        return (self.tagdepth > 0, self.depth0, self.mainfile)
 
 
 def allowed(kind, ctx):
@@ -68,10 +68,6 @@ def allowed(kind, ctx):
         return ctx.tagdepth == 0
     if kind in ("defself", "nstag"):
         return ctx.tagdepth == 0
-    if kind == "calltag":
-        # a def declared inside a <%call> body that is itself inside another <%call> body loses its
-        # caller today (AttributeError: 'NoneType' object has no attribute 'body'): C05's business
-        return ctx.calls < 2
     return True
 
 
